@@ -232,6 +232,7 @@ impl<'a, 'tcx> Mx<'a, 'tcx> {
                         v.push(("adt", J::s(def_path(self.tcx, *did))));
                         let adt = self.tcx.adt_def(*did);
                         v.push(("vidx", J::Int(vidx.as_usize() as i128)));
+                        v.push(("is_enum", J::Bool(adt.is_enum())));
                         v.push(("variant", J::s(adt.variant(*vidx).name.to_string())));
                         let names: Vec<J> =
                             adt.variant(*vidx).fields.iter().map(|f| J::s(f.name.to_string())).collect();
